@@ -2354,10 +2354,44 @@ class EvalExceptionFormatter:
         if isinstance(self.exc, SyntaxError):
             format_exc = [f"{type(self.exc).__name__}: {self.exc.msg}\n"]
         else:
-            format_exc = traceback.format_exception_only(self.exc)
+            format_exc = self._format_exception_only()
         result.extend(format_exc)
 
         return result
+
+    def _format_exception_only(self) -> list[str]:
+        """Return the final `Type: message` lines of the report.
+
+        The __str__ of an exception class defined in a script is a pyscript function: calling it
+        returns a coroutine, which str() (and so the traceback module) cannot use.  It cannot be
+        awaited from this synchronous formatter either, so it is run to completion here; a __str__
+        that only builds a string never suspends.
+        """
+        str_func = getattr(type(self.exc), "__str__", None)
+        if not isinstance(str_func, EvalFuncVar):
+            return traceback.format_exception_only(self.exc)
+        text = "<exception str() failed>"
+        coro = str_func(self.exc)
+        try:
+            coro.send(None)
+            # __str__ waits for something: it cannot be completed from here
+            coro.close()
+        except StopIteration as stop:
+            if isinstance(stop.value, str):
+                text = stop.value
+        except Exception:  # noqa: S110
+            # __str__ raised: reported the way python reports it
+            pass
+        exc_type = type(self.exc)
+        name = exc_type.__qualname__
+        if exc_type.__module__ not in ("__main__", "builtins"):
+            name = f"{exc_type.__module__}.{name}"
+        lines = [f"{name}: {text}\n" if text else f"{name}\n"]
+        notes = getattr(self.exc, "__notes__", None)
+        if isinstance(notes, (list, tuple)):
+            for note in notes:
+                lines.extend(f"{line}\n" for line in str(note).split("\n"))
+        return lines
 
     def _build_stack(self) -> None:
         """Build stack summary from traceback frames."""
